@@ -196,3 +196,48 @@ func VF_C20_perconn() {
 	close(a.conn.In)
 	close(b.conn.In)
 }
+
+// VF_C20_deadline_isolation: a deadline belongs to the key of one database. The same key name exists in two
+// databases, one copy has a deadline: TTL / PERSIST / SET / DEL on the other copy neither see nor touch it.
+func VF_C20_deadline_isolation() {
+	vfFreezeClock(5000)
+	m := hNewManager(2)
+	ctx := context.Background()
+	i := vfChoice("i", 2)
+	j := 1 - i
+	do := func(args ...string) string {
+		var a [][]byte
+		for _, s := range args {
+			a = append(a, bs(s))
+		}
+		_, b := replyText(m.ExecCommand(ctx, a, nil))
+		return string(b)
+	}
+	do("select", strconv.Itoa(j))
+	do("set", "k", "other")
+	do("select", strconv.Itoa(i))
+	do("set", "k", "v")
+	vfAssert(do("expire", "k", "1000") == ":1\r\n", "deadline-isolation-expire")
+	do("select", strconv.Itoa(j))
+	vfAssert(do("ttl", "k") == ":-1\r\n", "deadline-of-another-database-visible")
+	switch vfChoice("op", 4) {
+	case 0:
+		vfAssert(do("persist", "k") == ":0\r\n", "persist-removed-another-databases-deadline")
+	case 1:
+		do("set", "k", "w")
+	case 2:
+		do("del", "k")
+	default:
+		vfAssert(do("expire", "k", "5000") == ":1\r\n", "deadline-isolation-expire-other")
+	}
+	do("select", strconv.Itoa(i))
+	t := do("ttl", "k")
+	vfAssert(t != ":-1\r\n" && t != ":-2\r\n", "deadline-lost-through-another-database")
+	if vfIsSymbolic() {
+		vfAssert(t == ":1000\r\n", "deadline-changed-through-another-database") // the clock is frozen
+	} else {
+		n, err := strconv.Atoi(t[1 : len(t)-2])
+		vfAssert(err == nil && n <= 1000 && n >= 900, "deadline-changed-through-another-database")
+	}
+	vfAssert(do("get", "k") == "$1\r\nv\r\n", "deadline-isolation-value")
+}
